@@ -343,6 +343,16 @@ type c20EmbeddedLast struct {
 	One  string `json:"one" api:"rel,emb2,back"`
 	C20Base2
 }
+// C20Opt is embedded by pointer: the pointer is nil in every instance the library creates.
+type C20Opt struct {
+	Note string
+}
+type c20EmbeddedNilPtr struct {
+	ID string `json:"id" api:"embp"`
+	*C20Opt
+	Name string   `json:"name" api:"attr"`
+	Tags []string `json:"tags" api:"rel,embp"`
+}
 type C20Base2 struct {
 	ID string `json:"id" api:"emb2"`
 }
@@ -353,6 +363,12 @@ func (m c20) staticTypes(c *Ctx, r *RNG) {
 		attrs:   map[string]jsonapi.Attr{"name": {Name: "name", Type: jsonapi.AttrTypeString}},
 		rels:    map[string]jsonapi.Rel{"many": {FromType: "emb", FromName: "many", ToType: "emb"}},
 		goTypes: map[string]reflect.Type{"name": reflect.TypeOf(""), "many": reflect.TypeOf([]string{})}}, "struct{C20Base{ID string `json:\"id\" api:\"emb\"`}; Name string attr; Many []string rel,emb}", r)
+	c.Count("static_struct_types")
+	c.Name = "embedded-nil-pointer-before-fields"
+	m.runType(c, reflect.TypeOf(c20EmbeddedNilPtr{}), c20expect{typeName: "embp", tagged: 2,
+		attrs:   map[string]jsonapi.Attr{"name": {Name: "name", Type: jsonapi.AttrTypeString}},
+		rels:    map[string]jsonapi.Rel{"tags": {FromType: "embp", FromName: "tags", ToType: "embp"}},
+		goTypes: map[string]reflect.Type{"name": reflect.TypeOf(""), "tags": reflect.TypeOf([]string{})}}, "struct{ID string; *C20Opt (nil); Name string attr; Tags []string rel,embp}", r)
 	c.Count("static_struct_types")
 	c.Name = "embedded-id-last"
 	m.runType(c, reflect.TypeOf(c20EmbeddedLast{}), c20expect{typeName: "emb2", tagged: 2,
